@@ -199,7 +199,7 @@ func solveAll(obls []*Obligation, tier string, par int, dumpDir string) map[*Obl
 	}
 	var raceMu sync.Mutex // serialises multi-core acquisition (no deadlock between racers)
 	var wg sync.WaitGroup
-	quickT, slowT := 3, 75
+	quickT, slowT := 3, 120
 	if tier == "thorough" {
 		quickT, slowT = 5, 300
 	}
